@@ -1,5 +1,6 @@
 import CardVerif.Spec.Legality
 import CardVerif.Proofs.Replay
+import CardVerif.Proofs.ResetIdem
 /-!
 # C15 — replay and snapshot
 
@@ -10,8 +11,8 @@ import CardVerif.Proofs.Replay
 * `resume` – for a hand in progress, the constructor applied to the serialisable fields (stacks, pot contributions,
   street, seat to act, last actions, board, deck, log) yields the identical state; hence every continuation behaves
   identically (`resume_bisim`).  A *completed* hand cannot be resumed this way: open finding F9.
-* NOT proved: re-applying the log to the same object (`reset_state_from_action_dicts`) is idempotent — the object
-  keeps its board and deck, so this needs a simulation argument; it is covered by the correspondence only.
+* `reset_own_log`, `reset_idempotent` – re-applying a hand's own log to the *same object* (`reset_state_from_action_dicts`,
+  which keeps the object's board and deck) reproduces the object exactly, any number of times.
 -/
 namespace CardVerif.C15
 open CardVerif CardVerif.Betting
@@ -61,5 +62,15 @@ theorem resume_bisim (env : Env) (cfg : Cfg) (hw : env.w = World.std) (hv : cfg.
     ops.foldlM (fun st o => st.act env o.player o.ty o.amount) s := by
   rw [resume env cfg hw hv h hc a ha] at hr
   rw [Except.ok.inj hr]
+
+/-- re-applying a hand's own log to the same object reproduces the object -/
+theorem reset_own_log (env : Env) (cfg : Cfg) (hw : env.w = World.std) (hv : cfg.Valid) {s : State}
+    (h : Reachable env cfg s) : s.resetFromActionDicts env (s.log.map opOf) = .ok s :=
+  Betting.reset_own_log env cfg hw hv h
+
+/-- ... any number of times -/
+theorem reset_idempotent (env : Env) (cfg : Cfg) (hw : env.w = World.std) (hv : cfg.Valid) {s : State}
+    (h : Reachable env cfg s) (k : Nat) : iterReset env (s.log.map opOf) k s = .ok s :=
+  Betting.reset_idempotent env cfg hw hv h k
 
 end CardVerif.C15
